@@ -1041,3 +1041,40 @@ func (b *TB) Rename(t *Term, pred func(string) bool, suffix string, memo map[int
 	memo[t.id] = r
 	return r
 }
+
+// Abstract replaces expensive arithmetic (division, remainder and multiplication with two
+// non-constant operands, width >= 32) by uninterpreted functions.  The result
+// over-approximates satisfiability: unsat of the abstraction implies unsat of the original.
+func (b *TB) Abstract(t *Term, memo map[int]*Term) *Term {
+	if r, ok := memo[t.id]; ok {
+		return r
+	}
+	var r *Term
+	switch t.op {
+	case OpConst, OpVar:
+		r = t
+	default:
+		args := make([]*Term, len(t.args))
+		changed := false
+		for i, a := range t.args {
+			args[i] = b.Abstract(a, memo)
+			if args[i] != a {
+				changed = true
+			}
+		}
+		heavy := false
+		switch t.op {
+		case OpUDiv, OpURem, OpSDiv, OpSRem, OpMul:
+			heavy = t.w >= 32 && !args[0].IsConst() && !args[1].IsConst()
+		}
+		if heavy {
+			r = b.UF(fmt.Sprintf("abs_%s_%d", opSMT[t.op], t.w), t.w, args...)
+		} else if changed {
+			r = b.rebuild(t, args)
+		} else {
+			r = t
+		}
+	}
+	memo[t.id] = r
+	return r
+}
